@@ -26,18 +26,22 @@ Definition wf_role (r : role) : Prop :=
    string, so "" is the tool's rendering of NULL. *)
 
 (* ---- pg_authid's attributes: (attname, atttypid, attlen, attnum, attalign) ---- *)
-Definition nm (s : String.string) : bytes := String.list_byte_of_string s.
-Definition col (name : String.string) (typid len num align : Z) : Column :=
-  {| c_name := nm name; c_typid := typid; c_len := len; c_num := num; c_align := align |}.
-Definition auth_cols : list Column :=
-  [ col "oid" 26 4 1 105;                  (* oid, 'i' *)
-    col "rolname" 19 64 2 99;              (* name, 'c' *)
-    col "rolsuper" 16 1 3 99; col "rolinherit" 16 1 4 99; col "rolcreaterole" 16 1 5 99;
-    col "rolcreatedb" 16 1 6 99; col "rolcanlogin" 16 1 7 99; col "rolreplication" 16 1 8 99;
-    col "rolbypassrls" 16 1 9 99;          (* bool, 'c' *)
-    col "rolconnlimit" 23 4 10 105;        (* int4, 'i' *)
-    col "rolpassword" 25 (-1) 11 105;      (* text, varlena, 'i' *)
-    col "rolvaliduntil" 1184 8 12 100 ].   (* timestamptz, 'd' *)
+Module ColDef.
+  Import String.
+  Definition col (name : string) (typid len num align : Z) : Column :=
+    {| c_name := list_byte_of_string name; c_typid := typid; c_len := len; c_num := num; c_align := align |}.
+  Arguments col name%string typid len num align.
+  Definition auth_cols : list Column :=
+    [ col "oid" 26 4 1 105;                  (* oid, 'i' *)
+      col "rolname" 19 64 2 99;              (* name, 'c' *)
+      col "rolsuper" 16 1 3 99; col "rolinherit" 16 1 4 99; col "rolcreaterole" 16 1 5 99;
+      col "rolcreatedb" 16 1 6 99; col "rolcanlogin" 16 1 7 99; col "rolreplication" 16 1 8 99;
+      col "rolbypassrls" 16 1 9 99;          (* bool, 'c' *)
+      col "rolconnlimit" 23 4 10 105;        (* int4, 'i' *)
+      col "rolpassword" 25 (-1) 11 105;      (* text, varlena, 'i' *)
+      col "rolvaliduntil" 1184 8 12 100 ].   (* timestamptz, 'd' *)
+End ColDef.
+Definition auth_cols : list Column := Eval vm_compute in ColDef.auth_cols.
 
 Definition bool_byte (b : bool) : byte := if b then x01 else x00.
 Definition name_data (n : bytes) : bytes := n ++ zeros (64 - blen n).
@@ -121,3 +125,18 @@ Definition fits_page (ts : list tup) : Prop := 24 + 4 * Z.of_nat (length ts) + t
 (* a pg_authid file from the versions on each page *)
 Definition enc_heap (pages : list (list stored_role)) : bytes :=
   enc_file (map (fun srs => BPage (page_of (map role_tup srs))) pages) [].
+
+(* ---- decidable versions of the well-formedness predicates (sound: WfProofs.v); the driver asserts them on
+   every generated value, the examples are checked with them ---- *)
+Definition wf_role_b (r : role) : bool :=
+  (0 <=? r_oid r) && (r_oid r <? 2 ^ 32) &&
+  (1 <=? blen (r_name r)) && (blen (r_name r) <=? 63) && forallb (fun b => negb (b2z b =? 0)) (r_name r) &&
+  (- 2 ^ 31 <=? r_connlimit r) && (r_connlimit r <? 2 ^ 31) &&
+  match r_password r with Some p => (1 <=? blen p) && (blen p + 4 <? 2 ^ 30) | None => true end &&
+  match r_validuntil r with Some v => (- 2 ^ 63 <=? v) && (v <? 2 ^ 63) | None => true end.
+Definition wf_stored_b (s : stored_role) : bool :=
+  wf_role_b (sr_role s) && (blen (sr_head s) =? 18) && (0 <=? sr_flags2 s) && (sr_flags2 s <? 32) &&
+  (0 <=? sr_mask_hi s) && (sr_mask_hi s <? 32768) && (0 <=? sr_extra s) && (sr_extra s <=? 27).
+Definition page_ok_b (srs : list stored_role) : bool :=
+  forallb wf_stored_b srs &&
+  (24 + 4 * Z.of_nat (length srs) + tuples_size (map role_tup srs) <=? 8192).
